@@ -9,6 +9,7 @@ extern "C" [[noreturn]] void verif_throw();       // any C++ exception thrown by
 extern "C" [[noreturn]] void verif_overflow();    // bounded string capacity exceeded: bound too small
 extern "C" [[noreturn]] void verif_abort();       // assert() failure / abort inside the slice
 extern "C" [[noreturn]] void verif_unsupported(); // construct outside the modelled fragment
+extern "C" [[noreturn]] void verif_oob();         // string index beyond size(): undefined behaviour in the real std::string
 #ifndef CAP
 #define CAP 16
 #endif
@@ -25,8 +26,9 @@ struct string {
     size_t length() const { return n; }
     size_t size() const { return n; }
     bool empty() const { return n == 0; }
-    char operator[](size_t i) const { return d[i]; }
-    char& operator[](size_t i) { return d[i]; }
+    // s[size()] is the terminating NUL of std::string; anything beyond is undefined behaviour -> reported
+    char operator[](size_t i) const { if (i > n) verif_oob(); return i == n ? (char)0 : d[i]; }
+    char& operator[](size_t i) { if (i >= n) verif_oob(); return d[i]; }
     const char* begin() const { return d; }
     const char* end() const { return d + n; }
     char back() const { return d[n - 1]; }
